@@ -19,7 +19,7 @@ ASSUMPTIONS = ["the slew limit per sample is v_per_sec*fs in data units (the fun
                "limit' case is not asserted (property: exceed; code: >=)",
                "exact-zero of the mute on a flagged sample is asserted to 1e-9 (FFT-based convolution may leave 1e-16)"]
 REQUIRED = {"contract:saturation_post": 300, "flags_compared": 300, "mute_zero_checked": 100, "same_flags_same_mute": 20,
-            "boundary_at_threshold": 50, "reader_ranges_checked": 16}
+            "boundary_at_threshold": 50, "reader_ranges_checked": 16, "pipeline_runs": 2}
 CASE_TIMEOUT = 120.0
 
 _VIOL = []
@@ -31,6 +31,7 @@ def gen_cases(seed, tier):
     cases += [{"cls": "random", "seed": seed * 10000 + i, "n": 10, "_w": 1} for i in range(n // 2)]
     cases += [{"cls": "mute-shapes", "seed": seed * 10000 + i, "n": 10, "_w": 1} for i in range(n // 2)]
     cases += [{"cls": "reader-range", "seed": seed * 10000 + i, "n": 4, "_w": 2} for i in range(max(8, n // 20))]
+    cases += [{"cls": "pipeline", "seed": seed * 10000 + i, "_w": 12} for i in range(2 if tier == "quick" else 24)]
     return cases
 
 
@@ -210,14 +211,63 @@ def reader_range_case(case, V, res, rng):
     return nt
 
 
+def pipeline_case(case, V, res, rng):
+    """the flags as the production pipeline stores them: decompress_destripe_cbin evaluates saturation batch by batch (overlapping, tapered batches)
+    and writes one flag per sample; judged against the rule applied to the recorded voltages of the whole file (saturated runs at the very start,
+    right after batch starts, mid-batch and at the very end); the installed contract judges every per-batch call as well"""
+    import pyfftw
+    import spikeglx
+    from vlib import gen_meta as G
+    from vlib.result import scratch
+    assert getattr(pyfftw, "__verif_shim__", False)
+    d = scratch()
+    n = 64
+    nbatch = 4096
+    stride = nbatch - 2048
+    ns = int(rng.integers(9000, 15000))
+    kind = str(rng.choice(["3B2", "NP2.1"]))
+    rec = G.make(rng, kind=kind, sites=G.draw_sites(rng, kind, n, "dense"), ns=ns, raw=np.zeros((1, 1), np.int16))
+    s2v = rec.s2v[:n]
+    x = rng.standard_normal((ns, n)) * 12e-6 + rng.standard_normal((ns, 1)) * 20e-6
+    raw = np.clip(np.round(x / s2v[None, :]), -32768, 32767).astype(np.int16)
+    runs = []
+    kb = int(rng.integers(1, (ns - nbatch) // stride + 1))
+    for a in (int(rng.integers(0, 600)), kb * stride + int(rng.integers(5, 700)), kb * stride + 1024 + int(rng.integers(100, 900)), ns - int(rng.integers(30, 600))):
+        ln = int(rng.integers(5, 30))
+        a = max(0, min(a, ns - ln))
+        raw[a:a + ln, :] = (rec.maxint - 1) * int(rng.choice([-1, 1]))
+        runs.append((a, a + ln))
+    rec.raw = np.ascontiguousarray(np.c_[raw, G.sync_words(rng, (ns, 1))])
+    b = G.write(rec, d / "rec")
+    label = f"{kind} ns={ns} nbatch={nbatch}: full-scale runs at {runs}"
+    try:
+        out = d / "out" / "destriped.bin"
+        out.parent.mkdir()
+        V.decompress_destripe_cbin(b, output_file=out, nbatch=nbatch, nprocesses=1, reject_channels=False)
+        stored = np.load(out.parent / "_iblqc_ephysSaturation.samples.npy")
+        volts = raw.astype(np.float32).T * s2v.astype(np.float32)[:, None]
+        ref = reference_flags(volts, s2v * rec.maxint, 1e-8, rec.fs, 0.2)
+        res.count("pipeline_runs")
+        ok = stored.shape == (ns,) and np.array_equal(np.asarray(stored, bool), ref)
+        bad = np.flatnonzero(np.asarray(stored, bool) != ref) if stored.shape == (ns,) else []
+        res.check(ok, "saturation:flags:pipeline", f"{label}: the stored per-sample flags differ from the proportion rule on the recorded voltages at {len(bad)} samples "
+                  f"(first {list(bad[:6])}; rule flags {int(ref.sum())} samples, stored {int(np.sum(stored))})")
+        # the flagged samples are written muted (zero on every channel) in the destriped file
+        o = np.fromfile(out, dtype=np.int16).reshape(-1, rec.nc)
+        res.check(o.shape[0] == ns and not np.any(o[ref, :n]), "mute:nonzero-on-flag:pipeline", f"{label}: flagged samples are not written as zeros in the destriped file")
+    except Exception as e:
+        res.exception("saturation:pipeline:exception", e, label)
+    return 1
+
+
 def run_case(case):
     V = _install()
     res = Result()
     rng = rng_for(case)
     nt = 0
     sigs = set()
-    if case["cls"] == "reader-range":
-        nt = reader_range_case(case, V, res, rng)
+    if case["cls"] in ("reader-range", "pipeline"):
+        nt = reader_range_case(case, V, res, rng) if case["cls"] == "reader-range" else pipeline_case(case, V, res, rng)
         for key, msg in _VIOL:
             res.violation(key, msg)
         _VIOL.clear()
@@ -225,7 +275,7 @@ def run_case(case):
         for k in ("flags_compared", "mute_zero_checked"):
             if "contract:" + k in res.observed:
                 res.observed[k] = res.observed.pop("contract:" + k)
-        res.sig = f"reader-range-{case['seed']}"
+        res.sig = f"{case['cls']}-{case['seed']}"
         res.nontrivial = nt > 0
         res.nt = nt
         return res
